@@ -47,6 +47,24 @@ def call(eng, n, st):
     if not name and callee_n.k in ('UnresolvedLookupExpr',):
         name = (callee_n.get('lookups') or [''])[0]
     outs = []
+    if name == 'HashCombine' and len(args_n) == 2:
+        # HashCombine(seed&, value): seed := hc(seed, value) with hc uninterpreted (sound for equality of folds)
+        for s, v in eng.ev(args_n[1], st):
+            hook = getattr(eng.cur_contract, 'hash_combine', None)
+            if hook:
+                hook(eng, s, v, n)
+            s, p = eng.place(args_n[0], s)
+            old = eng.read_place(s, p)
+            vi = v.ref if isinstance(v, PyObj) else v
+            if z3.is_bool(vi):
+                vi = z3.If(vi, z3.IntVal(1), z3.IntVal(0))
+            if z3.is_expr(vi) and vi.sort() == Str:
+                vi = z3.Function('str_hash', Str, Int)(vi)
+            if not (z3.is_expr(vi) and z3.is_int(vi)):
+                raise Unsupported(f'HashCombine of {v!r}')
+            eng.write_place(s, p, z3.Function('hash_combine', Int, Int, Int)(old, vi))
+            outs.append((s, None))
+        return outs
     for s, args in eng.ev_seq([a for a in args_n if a.k != 'CXXDefaultArgExpr'], st):
         outs += call_named(eng, s, name, args, n, callee_n)
     return outs
@@ -112,6 +130,15 @@ def call_named(eng, st, name, args, n, callee_n=None):
             nv = st.alloc(st.heap[so.trav])
             return [(st, Ptr(st.alloc(SpecObj(nv, so.nil, so.ns))))]
         raise Unsupported(f'make_unique({src!r})')
+    if name == 'make_shared':
+        r = fresh('registration', Ref)
+        st.pc.append(r != NULL)
+        return [(st, r)]
+    if name == 'Singleton':
+        hook = getattr(eng.cur_contract, 'singleton', None)
+        if hook is None:
+            raise Unsupported('Singleton() outside a registry contract')
+        return [(st, hook(eng, st, template_args(eng, callee_n, 'Singleton')))]
     if name == 'back_inserter':
         return [(st, BackInserter(A[0].oid))]
     if name == 'copy':
@@ -133,8 +160,32 @@ def call_named(eng, st, name, args, n, callee_n=None):
     # ---- in-repo function: contract or inline
     q = resolve(eng, name, n)
     if q is not None:
+        params = eng.prog.template_params.get(q)
+        if params:
+            targs = template_args(eng, callee_n, name)
+            saved = dict(eng.template_env)
+            for pn, tv in zip(params, targs):
+                eng.template_env[pn] = tv
+            try:
+                return call_repo(eng, st, q, None, A, n)
+            finally:
+                eng.template_env = saved
         return call_repo(eng, st, q, None, A, n)
     raise Unsupported(f'call to {name}({len(A)} args) at L{line} in {eng.fn}')
+
+
+def template_args(eng, callee_n, name):
+    """Template arguments of a call: explicit ones recorded by clang for the referenced specialisation, otherwise
+    (dependent call inside a pattern) the enclosing function's own symbolic/concrete template parameters."""
+    if callee_n is not None and callee_n.get('ref'):
+        tu = getattr(eng, 'cur_tu', None)
+        for key in ((tu, callee_n['ref']),):
+            if key in eng.prog.spec_targs:
+                return [z3.BoolVal(bool(v)) for v in eng.prog.spec_targs[key]]
+    env = eng.template_env
+    if 'NoneIsLeaf' in env:
+        return [env['NoneIsLeaf']]
+    return []
 
 
 def resolve(eng, name, n=None, owner_hint=None):
@@ -168,6 +219,8 @@ def call_repo(eng, st, q, this, args, n):
     params = [p for p in fn.c if p.k == 'ParmVarDecl']
     body = next(x for x in fn.c if x.k == 'CompoundStmt')
     saved_scope, saved_this, saved_loop, saved_ic = st.scope, st.this, eng.loop_ordinal, getattr(eng, 'inline_contract', None)
+    saved_tu = getattr(eng, 'cur_tu', None)
+    eng.cur_tu = fn.get('tu', saved_tu)
     st.scope = type(saved_scope)(None)          # fresh frame
     st.scope.vars['__frame__'] = q
     for p, a in zip(params, args):
@@ -188,6 +241,7 @@ def call_repo(eng, st, q, this, args, n):
     thrown = eng.exc
     eng.exc = saved_exc
     eng.inline_depth -= 1
+    eng.cur_tu = saved_tu
     eng.loop_ordinal = saved_loop
     eng.inline_contract = saved_ic
     outs = []
@@ -405,8 +459,19 @@ def py_model(eng, st, name, A, n):
         raise Unsupported(f'cast to {t}')
     if name == 'isinstance':
         return [(st, z3.Function('py_isinstance_PyTreeSpec', Ref, Bool)(P(0).ref))]
-    if name in ('PyErr_SetString', 'PyErr_Clear', 'set_error'):
+    if name in ('PyErr_SetString', 'set_error'):
+        st.ghost['pyerr'] = z3.BoolVal(True)
         return [(st, None)]
+    if name == 'PyErr_Clear':
+        st.ghost['pyerr'] = z3.BoolVal(False)
+        return [(st, None)]
+    if name == 'PyErr_WarnEx':
+        # external contract (A-CAPI): runs the warnings machinery (Python code); returns 0, or -1 with the error
+        # indicator set when the warning is turned into an exception or the machinery itself fails
+        eng.may_call_python(st, 'PyErr_WarnEx (warnings machinery)', line)
+        s_fail = st.clone()
+        s_fail.ghost['pyerr'] = z3.BoolVal(True)
+        return [(st, z3.IntVal(0)), (s_fail, z3.IntVal(-1))]
     if name in ('HashCombine',):
         hook = getattr(eng.cur_contract, 'hash_combine', None)
         if hook:
@@ -489,6 +554,9 @@ def method(eng, st, base, name, A, n, callee=None):
         obj = st.heap[base.oid]
         if isinstance(obj, (NodeVec, ScalarVec, PairVec, PtrVec)):
             return vector_method(eng, st, base, obj, name, A, n)
+        from .absmap import AbsMap, map_method
+        if isinstance(obj, AbsMap):
+            return map_method(eng, st, base, obj, name, A, n)
         if isinstance(obj, SpecObj):
             q = resolve(eng, name, n, owner_hint='PyTreeSpec::')
             if q is None:
@@ -510,6 +578,15 @@ def method(eng, st, base, name, A, n, callee=None):
         if name in ('c_str', 'str'):
             return [(st, Opaque('cstr'))]
     if isinstance(base, Opaque):
+        if name == 'str' and base.tag.startswith('oss'):
+            r = fresh('built_string', Str)
+            if base.tag == 'oss+':
+                st.pc.append(r != EMPTY)
+            else:
+                st.pc.append(r == EMPTY)
+            return [(st, r)]
+        if name == 'empty':
+            return [(st, fresh('opaque_empty', Bool))]
         if name in ('str', 'c_str', 'what', 'matches'):
             if name == 'matches':
                 caught = st.ghost.get('caught')
@@ -698,7 +775,16 @@ def operator_call(eng, n, st):
                 for s2, _v in eng.ev(a, s):
                     nxt.append((s2, None))
             outs = nxt
-        return [(s, Opaque('oss')) for s, _ in outs]
+        # remember that something was inserted into the named stream (so that oss.str() is known to be non-empty)
+        root = args_n[0]
+        while root.k == 'CXXOperatorCallExpr' and root.c[0].name == 'operator<<':
+            root = root.c[1]
+        res = []
+        for s, _ in outs:
+            if root.k == 'DeclRefExpr' and s.scope.lookup(root.name) is not None and isinstance(s.get(root.name), Opaque):
+                s.set(root.name, Opaque('oss+'))
+            res.append((s, Opaque('oss+')))
+        return res
     if op == 'operator bool':
         outs = []
         for s, v in eng.ev(args_n[0], st):
